@@ -372,7 +372,18 @@ func (w *ResponseWriter) WriteMsg(m *dns.Msg) error {
 		m.AuthenticatedData = false
 	}
 
-	if w.Proto() == "udp" && udpOverflow(m, w.size) {
+	// A datagram is bounded by what the client advertised. Every other
+	// transport is still bounded by the protocol: a DNS message is at most
+	// 65,535 octets, which is also all a stream's two-octet length prefix
+	// can frame. A reply assembled past that — an alias spliced onto a target
+	// RRset that only just fit a frame of its own, a synthesis that widens
+	// every record — cannot be sent at all, and a transport that refuses the
+	// frame leaves the client with no reply. TC=1 is the reply that says so.
+	limit := dns.MaxMsgSize
+	if w.Proto() == "udp" {
+		limit = w.size
+	}
+	if udpOverflow(m, limit) {
 		// A truncated response is a retry signal, not a partial answer
 		// (RFC 2181 §9): the client must discard the content and ask
 		// again over TCP, so everything but the question and the OPT
